@@ -111,6 +111,10 @@ def run(ctx):
                 bad = "Serialize:%s:%s" % (cls, out)
             elif r["cyc"] and out != "err":
                 bad = "Serialize:%s:accepted" % cls
+            elif r["cyc"] and o.get("wrote", 0) > 1048576:
+                # the cycle was NOT recognised: the walk unrolled it (>10^5 nested calls, >100 MB of stack) until the output
+                # passed the 1 MiB item limit; the design (NeoVM!Walk with DetAll) refuses a cyclic value before writing it
+                bad = "Serialize:%s:cycle-unrolled-until-size-limit" % cls
             elif r["within"]:
                 exp_hex = bytes(r["bytes"]).hex()
                 if out == "err":
@@ -251,7 +255,7 @@ def finish(ctx, stats, n, extra):
     cov.update(extra)
     ctx.finish("model_checking", cov, [
         "size-limit rows: one container of 0/1/MAX-1/MAX/MAX+1 leaves (array, struct, map; top level, first and second element of an outer array) and byte arrays / totals around the 1 MiB limit", "heaps of <=3 cells x <=2 slots (all kinds; quick: 3 cells of arrays only) plus chains of up to 13 nested containers; leaves are the integer 1, map keys 1..2",
-        "depth limit: values with at most MAX_STRUCT_DEPTH nested containers must round-trip; deeper acyclic values may be accepted or refused (only crashes count)",
+        "a cyclic value must be refused as such (the design model writes nothing for it): a rejection that comes only from the 1 MiB output limit after unrolling the cycle (more than 1 MiB written for a heap of <= 13 cells) is reported as a violation", "depth limit: values with at most MAX_STRUCT_DEPTH nested containers must round-trip; deeper acyclic values may be accepted or refused (only crashes count)",
         "accept/reject and decoded value of mutated byte strings are compared with the model's decoder; a disagreement is reported as model drift (exit 2), only a crash/hang is a violation of the statement",
         "heaps on which the as-coded model predicts a fatal or slow run are sampled per seed (every structural class represented); all others are executed",
     ])
